@@ -152,6 +152,20 @@ def let(
     return result
 
 
+def _values_of_type(domain: Iterable, type_: Type) -> Iterable:
+    """
+    A generator function (not filter(), which asks the domain for its iterator at once): the domain is not touched
+    before the variable is evaluated.
+
+    :param domain: The given domain.
+    :param type_: The type of the variable.
+    :return: The values of the domain that are instances of the type.
+    """
+    for value in domain:
+        if isinstance(value, type_):
+            yield value
+
+
 def _get_domain_source_from_domain_and_type_values(
     domain: DomainType, type_: Type
 ) -> Optional[From]:
@@ -163,7 +177,7 @@ def _get_domain_source_from_domain_and_type_values(
     :return: The domain source as a From object.
     """
     if is_iterable(domain):
-        domain = filter(lambda x: isinstance(x, type_), domain)
+        domain = _values_of_type(domain, type_)
     elif domain is None and issubclass(type_, Symbol):
         return From(SymbolGraph().get_instances_of_type(type_), from_symbol_graph=True)
     return From(domain)
